@@ -1,13 +1,16 @@
 //! vmon: runtime monitors for helix-editor/nucleo (see /verif/DESIGN.md).
 pub mod json;
+pub mod m_boxcar;
 pub mod m_chars;
 pub mod m_compose;
+pub mod m_directed;
 pub mod m_grammar;
 pub mod m_match;
 pub mod m_strings;
 pub mod m_quality;
 pub mod m_sort;
 pub mod m_total;
+pub mod m_worker;
 pub mod refm;
 pub mod report;
 pub mod rng;
